@@ -29,6 +29,9 @@ def run(ctx):
     ctx.rule("R12-8", "`~` names the CURRENT home directory: the value expand_home splices in comes from a call of "
                       "env::var(\"HOME\") made during this expansion (on every path of the helper that supplies it), not "
                       "from a value remembered across calls (static / OnceLock / lazy)")
+    ctx.rule("R12-9", "the `.` and `..` entries glob adds for dot-leading patterns are filtered: expand_glob compares the last "
+                      "component of each match with \".\" and \"..\", and the helper that computes it is purely textual "
+                      "(the text after the last `/`) - no std::path accessor, which normalises exactly those two names away")
     ctx.rule("R12-4", "the home directory is not interpreted as a regex replacement template")
     for crate in ctx.crates:
         res = etag.run_sites(ctx, "R12-1", crate, fn_filter=lambda p: p in PASSES)
@@ -48,6 +51,7 @@ def run(ctx):
         ctx.floor("R12-7", crate, "passes with a token vector", n_, 4)
         range_rule(ctx, crate)
         home_current_rule(ctx, crate)
+        dot_entries_rule(ctx, crate)
 
 
 def tag_rule(ctx, crate, b):
@@ -346,3 +350,32 @@ def home_current_rule(ctx, crate):
                key="R12-8|%s|home-read-each-time|%s" % (b.path, name), where=b.loc(bb), crate=crate.kind,
                detail=None if ok else "after `export HOME=/elsewhere` (or HOME=... in the session) `~` still names the directory "
                "that was current when the value was first asked for")
+
+
+def dot_entries_rule(ctx, crate):
+    b = crate.fn("shell::expand_glob")
+    if not ctx.require(b is not None, "R12-9", "R12-9|anchor", "shell::expand_glob not found"):
+        return
+    helpers = set()
+    consts = set()
+    for bb in sorted(b.reachable):
+        for tgt, atom, val in b.switch_edges(bb):
+            a = b.expand_vars(strip_sites(atom))
+            cs = {const_str(x) for x in mir.subexprs(a) if x[0] == "const" and const_str(x) in (".", "..")}
+            if cs:
+                consts |= cs
+                for x in mir.subexprs(a):
+                    if x[0] == "call" and crate.fn(x[1]) is not None:
+                        helpers.add(x[1])
+    ctx.ob("R12-9", b.path, "matches are compared with \".\" and \"..\" before they are recorded", consts == {".", ".."},
+           key="R12-9|%s|filter" % b.path, crate=crate.kind, detail="constants compared: %s" % sorted(consts))
+    for h in sorted(helpers):
+        hb = crate.fn(h)
+        pathy = sorted({mir.short(c) for bb, t, c in hb.calls() if "std::path::" in c or "::Path::" in c or "PathBuf" in c})
+        textual = any(last_seg(c) in ("rsplit", "rfind", "rsplit_once", "split", "rsplitn") for bb, t, c in hb.calls())
+        ok = textual and not pathy
+        ctx.ob("R12-9", h, "the component helper works on the text (rsplit / rfind on '/'), not through std::path", ok,
+               key="R12-9|%s|textual" % h, crate=crate.kind,
+               detail=None if ok else "uses %s: Path::file_name() is None for `..` and drops a trailing `/.`, so `dir/..` and "
+               "`dir/.` are no longer recognised and `.*` expands to them" % (pathy or "no textual split"))
+    ctx.require(bool(helpers), "R12-9", "R12-9|%s|helper" % b.path, "no local helper computing the compared component found", b.path)
